@@ -40,6 +40,8 @@ FIXTURES = [
     ("c02_bad_right_gets_old_carry", "bad", ["B2"]),
     ("c02_bad_right_first", "bad", ["B4"]),
     ("c02_bad_entry_carry", "bad", ["B5"]),
+    ("c02_bad_root_reject", "bad", ["B5"]),
+    ("c02_good_range_guard", "good", []),
 ]
 
 SEARCHES = (("lower_bound_internal", "fwd"), ("lower_bound_rev_internal", "rev"))
@@ -212,7 +214,13 @@ def check(col, prog, tier, profile, fixture=None):
         It = c01.analyse(tgt)
         cpos = [p for p in range(1, tgt.arg_count) if not tgt.locals[p + 1]["ty"].startswith("&") and tgt.locals[p + 1]["ty"] != "usize"][0]
         for st in I.final_states:
-            for ev in st.event_list():
+            evs = st.event_list()
+            if not any(is_call_to(ev, tgt) for ev in evs) and not _out_of_range_path(I, st, R, 2):
+                col.violation("B5" + sfx, "%s|answers-without-search" % fk(b), b.loc(), "%s has a path that returns %s without running %s: the answer must be the search's" % (b.path, tstr(util.ret_term(st)), tgt.name))
+            direct = [ev for ev in evs if ev.kind == "call" and ev.extra.get("name") in ("call", "call_mut", "call_once") and (ev.extra.get("trait") or "").split("::")[-1].startswith("Fn")]
+            if direct:
+                col.violation("B5" + sfx, "%s|predicate-outside-search" % fk(b), b.loc(direct[0].bb), "%s evaluates the predicate itself on %s: the predicate may only see the in-order merge of [l; r'] built by the search" % (b.path, tstr(direct[0].args[1]) if len(direct[0].args) > 1 else "?"))
+            for ev in evs:
                 if not is_call_to(ev, tgt):
                     continue
                 c = ev.args[cpos]
@@ -225,6 +233,22 @@ def check(col, prog, tier, profile, fixture=None):
                 else:
                     col.violation("B5" + sfx, key, b.loc(ev.bb), "%s must start the search with T::default() as carry and return the search's index component" % b.path)
     _defaults(col, crate, sfx)
+
+
+def _out_of_range_path(I, st, R, ipos):
+    """the path condition says the index argument is outside the array (idx >= n) or the tree is empty:
+    the property does not quantify over such calls, so answering without a search is not a violation"""
+    idx = ("param", ipos, I.names.get(ipos))
+    facts = st.facts
+    ns = set()
+    for f in facts:
+        for t in subterms(f):
+            if t[0] == "load" and t[2][0] == "field" and t[2][2] == R.N:
+                ns.add(t)
+    for n in ns:
+        if zones.entails(facts, "Ge", idx, n, I.tys) or zones.entails(facts, "Eq", n, mk_int(0), I.tys):
+            return True
+    return False
 
 
 def _defaults(col, crate, sfx):
